@@ -5,7 +5,7 @@ Message magic 1:  crc:u32 magic:i8(1) attributes:i8 timestamp:i64 key:bytes valu
 attributes & 0x07: 0 none, 1 gzip, 2 snappy.  Inner offsets of a compressed wrapper: magic 0 absolute;
 magic 1 relative, the wrapper carrying the absolute offset of the LAST inner message.
 """
-from typing import List, Optional, Tuple
+from typing import Dict, List, Optional, Tuple
 
 from .prims import *  # noqa
 from .wire import *  # noqa
@@ -111,3 +111,135 @@ def enc_msgset_prefix(messages: List[Message], off0: int, incr: int, k: int) -> 
         return b''
     return enc_msgset_prefix(messages, off0, incr, k - 1) + p_i64(ite(incr == 0, off0, off0 + (k - 1))) + p_i32(
         len(enc_msg(messages[k - 1]))) + enc_msg(messages[k - 1])
+
+
+# ---------------------------------------------------------------------------------------------- request bodies
+
+def str_ascii_ok(s: str) -> bool:
+    return is_ascii_s(s) and len(enc_ascii(s)) <= 32767
+
+
+@rec
+def enc_strs_ascii(topics: List[str], k: int) -> bytes:
+    if k <= 0:
+        return b''
+    return enc_strs_ascii(topics, k - 1) + enc_str16_ascii(topics[k - 1])
+
+
+@rec
+def enc_strs_utf8(topics: List[str], k: int) -> bytes:
+    if k <= 0:
+        return b''
+    return enc_strs_utf8(topics, k - 1) + enc_str16_utf8(topics[k - 1])
+
+
+@rec
+def enc_join_protocols(ps: List[_JoinGroupRequestProtocol], k: int) -> bytes:
+    """[name:str metadata:bytes]"""
+    if k <= 0:
+        return b''
+    return enc_join_protocols(ps, k - 1) + enc_str16_ascii(ps[k - 1].protocol_name) + enc_bytes32(ps[k - 1].protocol_metadata)
+
+
+@rec
+def enc_sync_members(ms: List[_SyncGroupRequestMember], k: int) -> bytes:
+    """[member_id:str assignment:bytes]"""
+    if k <= 0:
+        return b''
+    return enc_sync_members(ms, k - 1) + enc_str16_utf8(ms[k - 1].member_id) + enc_bytes32(ms[k - 1].member_metadata)
+
+
+# OffsetCommit v1: [topic:str [partition:i32 offset:i64 timestamp:i64 metadata:str]]
+@rec
+def ocq_parts(tp: Dict[int, OffsetCommitRequest], j: int) -> bytes:
+    if j <= 0:
+        return b''
+    return ocq_parts(tp, j - 1) + p_i32(dkey(tp, j - 1)) + p_i64(dval(tp, j - 1).offset) + p_i64(
+        dval(tp, j - 1).timestamp) + enc_bytes16(dval(tp, j - 1).metadata)
+
+
+@rec
+def ocq_topics(g: Dict[str, Dict[int, OffsetCommitRequest]], i: int) -> bytes:
+    if i <= 0:
+        return b''
+    return ocq_topics(g, i - 1) + enc_str16_ascii(dkey(g, i - 1)) + p_i32(len(dval(g, i - 1))) + ocq_parts(
+        dval(g, i - 1), len(dval(g, i - 1)))
+
+
+# OffsetFetch v1: [topic:str [partition:i32]]
+@rec
+def ofq_parts(tp: Dict[int, OffsetFetchRequest], j: int) -> bytes:
+    if j <= 0:
+        return b''
+    return ofq_parts(tp, j - 1) + p_i32(dkey(tp, j - 1))
+
+
+@rec
+def ofq_topics(g: Dict[str, Dict[int, OffsetFetchRequest]], i: int) -> bytes:
+    if i <= 0:
+        return b''
+    return ofq_topics(g, i - 1) + enc_str16_ascii(dkey(g, i - 1)) + p_i32(len(dval(g, i - 1))) + ofq_parts(
+        dval(g, i - 1), len(dval(g, i - 1)))
+
+
+# Fetch v0-v2: [topic:str [partition:i32 offset:i64 max_bytes:i32]]
+@rec
+def fq_parts(tp: Dict[int, FetchRequest], j: int) -> bytes:
+    if j <= 0:
+        return b''
+    return fq_parts(tp, j - 1) + p_i32(dkey(tp, j - 1)) + p_i64(dval(tp, j - 1).offset) + p_i32(dval(tp, j - 1).max_bytes)
+
+
+@rec
+def fq_topics(g: Dict[str, Dict[int, FetchRequest]], i: int) -> bytes:
+    if i <= 0:
+        return b''
+    return fq_topics(g, i - 1) + enc_str16_ascii(dkey(g, i - 1)) + p_i32(len(dval(g, i - 1))) + fq_parts(
+        dval(g, i - 1), len(dval(g, i - 1)))
+
+
+# ListOffsets v0: [topic:str [partition:i32 timestamp:i64 max_num_offsets:i32]]
+@rec
+def oq_parts(tp: Dict[int, OffsetRequest], j: int) -> bytes:
+    if j <= 0:
+        return b''
+    return oq_parts(tp, j - 1) + p_i32(dkey(tp, j - 1)) + p_i64(dval(tp, j - 1).time) + p_i32(dval(tp, j - 1).max_offsets)
+
+
+@rec
+def oq_topics(g: Dict[str, Dict[int, OffsetRequest]], i: int) -> bytes:
+    if i <= 0:
+        return b''
+    return oq_topics(g, i - 1) + enc_str16_ascii(dkey(g, i - 1)) + p_i32(len(dval(g, i - 1))) + oq_parts(
+        dval(g, i - 1), len(dval(g, i - 1)))
+
+
+# Produce v0-v2: [topic:str [partition:i32 record_set_size:i32 record_set]]
+def pq_msgset(p: ProduceRequest) -> bytes:
+    return enc_msgset_prefix(p.messages, 0, 0, len(p.messages))
+
+
+@rec
+def pq_parts(tp: Dict[int, ProduceRequest], j: int) -> bytes:
+    if j <= 0:
+        return b''
+    return pq_parts(tp, j - 1) + p_i32(dkey(tp, j - 1)) + p_i32(len(pq_msgset(dval(tp, j - 1)))) + pq_msgset(dval(tp, j - 1))
+
+
+@rec
+def pq_topics(g: Dict[str, Dict[int, ProduceRequest]], i: int) -> bytes:
+    if i <= 0:
+        return b''
+    return pq_topics(g, i - 1) + enc_str16_ascii(dkey(g, i - 1)) + p_i32(len(dval(g, i - 1))) + pq_parts(
+        dval(g, i - 1), len(dval(g, i - 1)))
+
+
+def produce_header_version(api_version: int) -> int:
+    """the client implements Produce v0/v1 layout (magic 0) and v2 layout (magic 1); anything above is sent as v2"""
+    if api_version >= 2:
+        return 2
+    return api_version
+
+
+def payload_msgs_ok(p: ProduceRequest) -> bool:
+    return len(p.messages) < 100000000
